@@ -62,6 +62,7 @@ type RunSpec struct {
 	TargetPrefixes []string
 	ArbWide  bool
 	Stubs    []string
+	MapRangeCoverage bool // C12: every reachable map-range site must lie in an executed function
 	LoadOnly bool // only type-check the packages and report what does not load (observation, not a verdict)
 	Permute  bool
 	WriteMon bool
@@ -148,6 +149,7 @@ func runCheck(p *Prop, tier string, seed int64) int {
 	}{Outcomes: map[string]int{}, Fns: map[string]int{}, Stubs: map[string]int{}, Unsupp: map[string]int{}, Reached: map[string]int{}}
 
 	var allFindings []sym.Finding
+	var mapSites []mapSite
 	observed := 0
 	var structural []string
 	findingDir := map[string]string{}
@@ -217,6 +219,9 @@ func runCheck(p *Prop, tier string, seed int64) int {
 		}
 		st := sym.NewStats()
 		res, ss := e.Explore(tasks, st)
+		if rs.MapRangeCoverage {
+			mapSites = append(mapSites, mapRangeSites(prog, st.Fns)...)
+		}
 		agg.Solver.Queries += ss.Queries
 		agg.Solver.Sat += ss.Sat
 		agg.Solver.Unsat += ss.Unsat
@@ -278,6 +283,30 @@ func runCheck(p *Prop, tier string, seed int64) int {
 		}
 		if len(ss.Errors) > 0 {
 			inconclusive = append(inconclusive, "solver errors: "+strings.Join(ss.Errors[:1], ";"))
+		}
+	}
+	if len(mapSites) > 0 {
+		covered := map[string]bool{}
+		reachable := map[string]bool{}
+		fnOf := map[string]string{}
+		for _, ms := range mapSites {
+			if ms.Covered {
+				covered[ms.Pos] = true
+			}
+			if ms.Reachable {
+				reachable[ms.Pos] = true
+			}
+			fnOf[ms.Pos] = ms.Fn
+		}
+		var poss []string
+		for pos := range fnOf {
+			poss = append(poss, pos)
+		}
+		sort.Strings(poss)
+		for _, pos := range poss {
+			if reachable[pos] && !covered[pos] {
+				inconclusive = append(inconclusive, "uncovered map-range site (reachable from Generate, no harness executes its function): "+pos+" in "+fnOf[pos])
+			}
 		}
 	}
 	for _, le := range agg.LoadErrors {
@@ -422,6 +451,7 @@ func runCheck(p *Prop, tier string, seed int64) int {
 		"corpus_rejected_by_generator":  rejected,
 		"reach_labels":                  agg.Reached,
 		"corpus_packages_type_checked":  observed,
+		"map_range_sites":               mapSites,
 		"replays_attempted":             replayed,
 		"replays_confirmed":             confirmed,
 		"reach_witnesses_replayed":      wit,
